@@ -35,12 +35,21 @@ Definition expected_reg (w : bool) (dst : option tree) (at_place : option tree) 
 Fixpoint check_case (c : ccase) : bool :=
   match c with
   | CXfer r w dst sname dname t err obs reg =>
-      match transfer FUEL r w dst sname dname t with
-      | None => err
-      | Some fs' =>
-          negb err
+      match r, deref FUEL t [] t with
+      | RL, Some t' =>
+          (* the local extraction loop with Python's errors: raised or not, and what was written until then *)
+          let '(fs', e) := r2l_chk dst sname dname t' in
+          Bool.eqb err e
           && opt_eqb tree_eqb (lookup1 dname (entries fs')) obs
-          && list_eqb String.eqb reg (expected_reg w dst (lookup fs' (place dst sname dname)))
+          && (if e then true else list_eqb String.eqb reg (expected_reg w dst (lookup fs' (place dst sname dname))))
+      | _, _ =>
+          match transfer FUEL r w dst sname dname t with
+          | None => err
+          | Some fs' =>
+              negb err
+              && opt_eqb tree_eqb (lookup1 dname (entries fs')) obs
+              && list_eqb String.eqb reg (expected_reg w dst (lookup fs' (place dst sname dname)))
+          end
       end
   | CBoth a b => check_case a && check_case b
   end.
